@@ -24,8 +24,8 @@ ID = "C26"
 GEN = ["crawlconsts"]
 RULE = ("cases: one case = one share (immutable or mutable container, schema v1 or v2, 0..5 leases with renewal times at "
         "threshold-40d, -1d, -1s, exactly the threshold, +1s, +1d, +20d; some with a repeated cancel secret) under one of the "
-        "72 policy configurations (expire.enabled true/false/absent x {age, age with override 7days / 2mo / 60 days, cutoff-date x2} x "
-        "immutable/mutable filters, written as tahoe.cfg text), crawled in one slice, in several slices, or with a restart "
+        "84 policy configurations (expire.enabled true/false/absent x {age, age with override 7days / 2mo / 60 days / 0 days, cutoff-date x2} x "
+        "immutable/mutable filters, written as tahoe.cfg text; every fourth server is also constructed directly with the same parameters), crawled in one slice, in several slices, or with a restart "
         "in mid-cycle, with the process time zone left alone or set to EST5 / CET-1 / PST8 / NZST-12 (every cutoff-date "
         "configuration is crawled under a non-UTC zone in some round), plus one case per (configuration text, time zone in "
         "{unchanged, EST5, JST-9}) for the option handling (valid and refused ones), judged against the documented meaning "
@@ -64,7 +64,7 @@ OFFSETS = [-40 * DAY, -DAY, -1, 0, 1, DAY, 20 * DAY]
 # What the documentation says the option values mean, written down here independently of
 # util/time_format.py: durations in days (a month is 31 days, a year 365), dates as midnight UTC at
 # the beginning of the given day (docs/garbage-collection.rst).
-DURATIONS = {"7days": 7 * DAY, "2mo": 62 * DAY, "60 days": 60 * DAY, "1 year": 365 * DAY}
+DURATIONS = {"7days": 7 * DAY, "2mo": 62 * DAY, "60 days": 60 * DAY, "1 year": 365 * DAY, "0 days": 0}
 DATES = {d: calendar.timegm(tuple(int(x) for x in d.split("-")) + (0, 0, 0)) for d in ("2023-11-10", "2023-09-01")}
 # POSIX TZ strings (no zoneinfo needed).  The node's local time zone must not matter.
 ZONES = [None, "EST5", "JST-9"]
@@ -152,7 +152,7 @@ class Patched(object):
 # ---- configurations ------------------------------------------------------------
 def config_texts():
     """(text of the expire.* lines, model config term parts, parsed override, parsed cutoff)."""
-    modes = [("age", None, None), ("age", "7days", None), ("age", "2mo", None), ("age", "60 days", None),
+    modes = [("age", None, None), ("age", "7days", None), ("age", "2mo", None), ("age", "60 days", None), ("age", "0 days", None),
              ("cutoff-date", None, "2023-11-10"), ("cutoff-date", None, "2023-09-01")]
     out = []
     for enabled in (True, False, None):       # None: expire.enabled absent
@@ -209,12 +209,19 @@ def t_policy(p):
 class ServerFactory(object):
     """Builds the StorageServer the way a node does, from tahoe.cfg text."""
 
-    def __init__(self, basedir, text):
+    def __init__(self, basedir, text, direct=None):
         self.basedir = basedir
         self.text = text
+        self.direct = direct      # a policy tuple: construct the StorageServer directly with these parameters
         os.makedirs(basedir, exist_ok=True)
 
     def make(self, clock):
+        if self.direct is not None:
+            from allmydata.storage.server import StorageServer
+            enabled, mode, override, cutoff, types = self.direct
+            return StorageServer(os.path.join(self.basedir, "storage"), b"\x26" * 20, expiration_enabled=enabled, expiration_mode=mode,
+                                 expiration_override_lease_duration=override, expiration_cutoff_date=cutoff,
+                                 expiration_sharetypes=tuple(types), clock=clock)
         from twisted.application import service
         from allmydata import client, node
 
@@ -475,7 +482,8 @@ def run(ctx):
         now = NOW + r.choice([0, 12345, 5 * DAY])
         thr = threshold(pol, now)
         dup_round = (gi + rnd) % 4 == 0
-        factory = ServerFactory(os.path.join(base, "s%d_%d" % (rnd, gi)), c["text"])
+        direct = pol if (gi + rnd) % 4 == 1 else None      # every fourth server is constructed without tahoe.cfg
+        factory = ServerFactory(os.path.join(base, "s%d_%d" % (rnd, gi)), c["text"], direct=direct)
         clock = Clock()
         ss = factory.make(clock)
         specs = []
@@ -491,7 +499,7 @@ def run(ctx):
                 ctx.mismatch("harness-share-setup", "share was not created with the intended leases", case={"kind": sp.kind, "schema": sp.schema},
                              expected=[x + D31 for x in sp.renewals], observed=b, correspondence="lease-checker-vs-process-share-model")
         ss, cycle, exc = run_cycle(factory, clock, ss, style, now)
-        case0 = {"config": c["text"], "now": now, "style": style, "tz": tz, "documented_policy": [pol[0], pol[1], pol[2], pol[3], list(pol[4])]}
+        case0 = {"config": c["text"], "now": now, "style": style, "tz": tz, "documented_policy": [pol[0], pol[1], pol[2], pol[3], list(pol[4])], "constructed_directly": direct is not None}
         if exc is not None:
             ctx.oracle_fail("gc-lease-checker-dies-after-restart" if style == "restart" else "gc-crawl-raises",
                             "the lease checker raised %s: %s during a %s crawl" % (type(exc).__name__, exc, style), case=case0,
@@ -634,7 +642,9 @@ def replay(ctx, rec):
 
 def _replay(ctx, case, tz, Clock):
     base = env.subdir("c26-replay")
-    factory = ServerFactory(os.path.join(base, "r"), case["config"])
+    doc0 = case.get("documented_policy")
+    direct = (doc0[0], doc0[1], doc0[2], doc0[3], tuple(doc0[4])) if (doc0 and case.get("constructed_directly")) else None
+    factory = ServerFactory(os.path.join(base, "r"), case["config"], direct=direct)
     clock = Clock()
     try:
         ss = factory.make(clock)
